@@ -115,6 +115,12 @@ func (w *World) GoLow(name string, f func()) *verifrt.Thread {
 	return verifrt.GoOpt(name, verifrt.ThreadOpt{Abs: true, Low: 2, Daemon: true}, f)
 }
 
+// GoPeer starts a scripted raw peer: an application actor that by default acts only when
+// the system under test is quiescent (sending earlier is a deviation).
+func (w *World) GoPeer(name string, f func()) *verifrt.Thread {
+	return verifrt.GoOpt(name, verifrt.ThreadOpt{Abs: true, Low: 1, App: true}, f)
+}
+
 // Point is an application-level scheduling point.
 func (w *World) Point(site string) { verifrt.Yield("app", site, nil, nil) }
 
@@ -146,17 +152,17 @@ func (w *World) Sleep(d time.Duration) {
 
 // Frame is one tunnel frame seen on a carrier stream.
 type Frame struct {
-	Seq      int
-	Step     int
-	Stream   string // carrier stream name
-	C2S      bool   // carrier direction client->server
-	Msg      proto.Message
-	Size     int
-	Sender   string // thread that sent it
-	Queued   bool   // false: dropped by the carrier because the other side was gone
-	Note     string // non-frame events ("break", "c.closesend", ...)
-	Deliv    int    // step at which it was delivered to the receiving endpoint (-1: not)
-	DataLen  int    // message bytes carried by a data frame (the tap keeps sizes, not payloads)
+	Seq     int
+	Step    int
+	Stream  string // carrier stream name
+	C2S     bool   // carrier direction client->server
+	Msg     proto.Message
+	Size    int
+	Sender  string // thread that sent it
+	Queued  bool   // false: dropped by the carrier because the other side was gone
+	Note    string // non-frame events ("break", "c.closesend", ...)
+	Deliv   int    // step at which it was delivered to the receiving endpoint (-1: not)
+	DataLen int    // message bytes carried by a data frame (the tap keeps sizes, not payloads)
 }
 
 // Tap records every frame of every carrier stream.
